@@ -80,7 +80,7 @@ def script_of(hist, rng, nmax=24, threads=(1, 2, 4), ienv=None, scale_for_equil=
         lines.append("track on=1")
     if pert:
         lines.append("perturb pct=%d seed=%d" % (pert, rng.randrange(1, 10 ** 6)))
-    for c in hist:
+    for ci, c in enumerate(hist):
         if c["call"] == "mat":
             n = rng.randint(3, nmax)
             gen = matgen or rng.choice(["random", "random", "banded", "arrow", "grid"])
@@ -107,7 +107,9 @@ def script_of(hist, rng, nmax=24, threads=(1, 2, 4), ienv=None, scale_for_equil=
             # natural one as well (small grids in natural order give relaxed supernodes made of several Cholesky supernodes)
             lines.append("permc order=%d" % (rng.choice([2, 2, -1]) if symmetric else rng.choice([-1, 0, 1, 2, 3])))
         elif c["call"] == "vals":
-            lines.append("vals seed=%d" % rng.randrange(1, 10 ** 6))
+            # when a later call asks for the old row order: in half of the cases one old pivot entry becomes exactly zero (the request must fall back)
+            later_usepr = any(d.get("usepr") for d in hist[ci + 1:])
+            lines.append("vals seed=%d%s" % (rng.randrange(1, 10 ** 6), " zp=%d" % rng.choice([1, 2]) if later_usepr and rng.random() < 0.5 else ""))
         elif c["call"] == "gssv":
             nr, pd, _ = rhs_shape(rng.choice([0, 1, 2, 3]), rng.choice([0, 0, 3]), 0)
             lines.append("gssv P=%d nrhs=%d pad=%d seed=%d" % (rng.choice(threads), nr, pd, rng.randrange(1, 10 ** 6)))
@@ -121,14 +123,18 @@ def script_of(hist, rng, nmax=24, threads=(1, 2, 4), ienv=None, scale_for_equil=
             lines.append("gssvx P=%d fact=%s refact=%d usepr=%d trans=%s lwork=%s nrhs=%d pad=%d padx=%d seed=%d u=%s%s" % (
                 rng.choice(threads), c["fact"], int(c["refact"]), int(c["usepr"]), c["trans"], lw, nr,
                 pd, px, rng.randrange(1, 10 ** 6),
-                "0.0" if symmetric else rng.choice(["1.0", "1.0", "0.5", "0.1"]), " sym=1" if symmetric else ""))
+                "0.0" if symmetric else rng.choice(["1.0", "1.0", "0.5", "0.1"]), " sym=1" if symmetric else "")
+                + (" woff=%d" % rng.choice([0, 0, 4, 8, 12]) if c["lw"] == "user" and not c["refact"] and c["fact"] != "FACTORED" else ""))
         elif c["call"] == "destroy":
             lines.append("destroy")
         elif c["call"] == "sinit":
             # first factorization of a session with partial pivoting; a re-factorization that asks for the old row order uses u = 1/2,
             # so that with unchanged values every old pivot provably still passes the threshold (SluApi!ObsSFactor)
-            u = "1.0" if not c["refact"] else ("0.5" if c["usepr"] else rng.choice(["1.0", "0.5", "0.1"]))
-            lines.append("sinit P=%d refact=%d usepr=%d lwork=%d u=%s" % (rng.choice(threads), int(c["refact"]), int(c["usepr"]), {"sys": 0, "user": 16 << 20}[c["lw"]], u))
+            # (u = 0 is what the header of p?gstrf recommends to force a given row order; the obligations of a session are relative to |L||U|,
+            # so they hold whatever the growth)
+            u = "1.0" if not c["refact"] else (rng.choice(["0.5", "0.0"]) if c["usepr"] else rng.choice(["1.0", "0.5", "0.1"]))
+            lines.append("sinit P=%d refact=%d usepr=%d lwork=%d u=%s%s" % (rng.choice(threads), int(c["refact"]), int(c["usepr"]), {"sys": 0, "user": 16 << 20}[c["lw"]], u,
+                                                                           " woff=%d" % rng.choice([0, 4, 8, 12]) if c["lw"] == "user" and not c["refact"] else ""))
         elif c["call"] == "sfactor":
             lines.append("sfactor")
         elif c["call"] == "ssolve":
